@@ -223,7 +223,11 @@ func MinimiseH(spec *HSpec) func(f *Found) *Found {
 }
 
 // registerH wires an HSpec into the registry.
+// HSpecs lists the Engine H checks (for `vcheck count`).
+var HSpecs = map[string]*HSpec{}
+
 func registerH(spec *HSpec, c *Check) {
+	HSpecs[spec.ID] = spec
 	c.ID = spec.ID
 	c.Run = func(env *Env) *Result { return RunH(spec, env) }
 	c.Reproduce = ReproduceH(spec)
